@@ -98,9 +98,9 @@ func (c *conn) terminate(err error) error {
 	vp("term.cancel", c)
 	c.cancel(err) // Cancel the server context
 	vp("term.txswap", c)
-	if tx := c.tx.Swap(chan txMsg(nil)); tx != nil && tx != chan txMsg(nil) {
-		close(tx.(chan txMsg))
-	}
+	// The tx channel is swapped out but never closed: a caller may already have loaded it and be about to
+	// send on it (send on a closed channel panics). Senders and the write loop are released by the context.
+	c.tx.Swap(chan txMsg(nil))
 	vp("term.sockclose", c)
 	return c.stream.Close() // Close the connection
 }
